@@ -5,7 +5,10 @@ import asyncio, heapq, math, binascii, datetime as D, logging, os, random, struc
 from unittest.mock import MagicMock
 import time_machine
 import lib
-logging.disable(logging.CRITICAL)
+# nothing the library or asyncio logs is printed; levels stay effective (logging.disable would make isEnabledFor false everywhere)
+logging.getLogger("aioswitcher").addHandler(logging.NullHandler()); logging.getLogger("aioswitcher").propagate = False
+logging.getLogger("asyncio").addHandler(logging.NullHandler()); logging.getLogger("asyncio").propagate = False
+logging.getLogger().addHandler(logging.NullHandler()); logging.lastResort = None
 from aioswitcher.api import SwitcherType1Api, SwitcherType2Api, Command
 from aioswitcher.api.remotes import SwitcherBreezeRemote
 from aioswitcher.device import DeviceState, ThermostatMode, ThermostatFanLevel, ThermostatSwing
